@@ -23,6 +23,7 @@ EXPLANATION = (
     "exception class table read from common.py; every remaining normal path must pass a sink or return the failure "
     "(which then reaches the join routine's own terminal handler, checked likewise). addCallbacks' same-level rule is "
     "respected: the lookup's errback does not see a failure of the metadata load started by its success arm."
+    ' Also: a group request in flight is cancelled only after `_stopping` was raised (R7).'
 )
 SHARED = [('C11', ['R7'], 'the join request is given the time a rebalance may take: a slow rebalance is not mistaken for a silent broker (join, time out, back off, for ever)'), ('C16', ['R3'], 'eviction arms reset the member identity so that the rejoin can succeed'), ('C15', ['R6'], 'the leader can always complete the assignment (loads exactly the topics it was told are missing)')]
 ASSUMPTIONS = [
@@ -343,6 +344,17 @@ def run(ctx):
     r.check(bool(rh) and len(done) == 1 and cj.dominates(rh, done[0].id), "%s#heartbeat-restarted-on-completion" % jas.qname,
             "join completion marks the member stable without (re)starting the heartbeat timer", where(jas, jas.node),
             "stable member never heartbeats: evicted after the session timeout")
+
+    # rejoin_after_error raises `_rejoin_needed` whether or not a timer is already pending: the pending timer may belong to an
+    # exchange that has since succeeded, and its callback only joins when the flag is up
+    crae = ctx.cfg(rae)
+    gate_ = [n for n in crae.nodes if n.kind == "test" and chains_in(n.stmt.test) == {"self", "self._rejoin_wait_dc"}]
+    raised_ = [n.id for n in crae.nodes if isinstance(node_assign_value(n, "_rejoin_needed"), ast.Constant) and node_assign_value(n, "_rejoin_needed").value is True]
+    r2b = ctx.rule("R8", "the error handler marks the rejoin as needed on every path that reaches the timer gate", 1, "B")
+    r2b.check(bool(gate_) and bool(raised_) and all(crae.dominates(raised_, g_.id) for g_ in gate_), "%s#flag-raised-before-the-gate" % rae.qname,
+              "`_rejoin_needed` is raised only when no timer is pending", where(rae, gate_[0].stmt if gate_ else rae.node),
+              "a timer armed during an exchange that then succeeded is still pending when the next REBALANCE_IN_PROGRESS arrives: the flag "
+              "stays down, the heartbeats have stopped, the old timer finds nothing to do - the member never rejoins")
 
     # ---- R7 nobody but stop() cancels a group request in flight
     r = ctx.rule("R7", "a group request in flight (heartbeat, join exchange) is cancelled only after `_stopping` was raised", 1, "A+B")
